@@ -243,3 +243,44 @@ F("D32d", "C12", NS, "      k = v_upper - v_lower\n", "      k = v_upper - v_low
 F("D32e", "C12", NS, "    v[min(k, r - rank)] += 1", "    v[min(k, rank)] += 1", "R-C12-CONSIST", "rank class indexed by rank instead of deficiency")
 T("D32f", "C12", NS, "  if n < 100:\n    raise InsufficientDataError(\"Not enough input\")", "  if n <= 99:\n    raise InsufficientDataError(\"Not enough input\")", "n < 100 written as n <= 99")
 T("D32g", "C12", NS, "    maxs = max(0, max(total_cnt, default=0))", "    maxs = max(max(total_cnt, default=0), 0)", "clamp arguments swapped")
+
+# ---------------------------------------------------------------------------------- C11
+EC = L + "ec_util.py"
+F("B17", "C11", EC, "    x3 = (t * t - x1 - x2) % self.mod\n    y3 = (t * (x1 - x3) - y1) % self.mod\n    return (x3, y3)", "    x3 = (t * t - x1 - x2) % self.mod\n    y3 = (t * (x1 - x3) + y1) % self.mod\n    return (x3, y3)", "R-C11-FORMULA", "Add: y3 sign")
+F("B18", "C11", EC, "    x3 = (r * r - hcube - 2 * t) % mod", "    x3 = (r * r - hcube - t) % mod", "R-C11-FORMULA", "AddJacobian: x3 misses a t")
+F("B19", "C11", EC, "      m = 3 * (x + zsqr) * (x - zsqr) % mod", "      m = 3 * (x + zsqr) * (x + zsqr) % mod", "R-C11-FORMULA", "DoubleJacobian a=-3 shortcut")
+F("B20", "C11", EC, "        t = v * (p[1] + q[1]) % self.mod\n        diffs[i]", "        t = v * (p[1] - q[1]) % self.mod\n        diffs[i]", "R-C11-FORMULA", "BatchAddSubtractX diff uses the sum slope")
+F("B22", "C11", EC, "\"3617de4a96262c6f5d9e98bf9292dc29f8f41dbd289a147ce9da3113b5f0\"", "\"3617de4a96262c6f5d9e98bf9292dc29f8f41dbd289a147ce9da3113b5f1\"", "R-C11-CURVES", "secp384r1 gy digit")
+T("B23", "C11", EC, "    h = u2 - u1 % mod\n", "    h = (u2 - u1) % mod\n", "AddJacobian parenthesised reduction")
+T("B24", "C11", EC, "    inv = gmpy.invert(x1 - x2, self.mod)\n    t = (y1 - y2) * inv % self.mod", "    inv = gmpy.invert(x2 - x1, self.mod)\n    t = (y2 - y1) * inv % self.mod", "Add: mirrored slope")
+F("B30", "C11", EC, "    num = (3 * x * x + self.a) % self.mod\n    den = 2 * y\n", "    num = (3 * x * x - self.a) % self.mod\n    den = 2 * y\n", "R-C11-FORMULA", "Double: -a")
+F("B31", "C11", EC, "    return (x, -y % self.mod)", "    return (x, y % self.mod)", "R-C11-FORMULA", "Negate returns the point itself")
+F("B32", "C11", EC, "    z2 = 2 * y * z % mod\n    return x2, y2, z2", "    z2 = y * z % mod\n    return x2, y2, z2", "R-C11-FORMULA", "DoubleJacobian z2")
+F("B33", "C11", EC, "    wsqr = w * w % mod\n    wcube = wsqr * w % mod\n    x = x * wsqr % mod\n    y = y * wcube % mod", "    wsqr = w * w % mod\n    wcube = wsqr * w % mod\n    x = x * wsqr % mod\n    y = y * wsqr % mod", "R-C11-FORMULA", "JacobianToAffine y uses w^2")
+F("B34", "C11", EC, "        tmp[i] = 2 * p[1]\n", "        tmp[i] = p[1]\n", "R-C11-FORMULA", "BatchDouble inverse of y instead of 2y")
+F("B35", "C11", EC, "    if x1 == x2:\n      if y1 == y2:\n        return self.Double(p)\n      else:\n        return INFINITY", "    if x1 == x2:\n      if y1 == y2:\n        return INFINITY\n      else:\n        return self.Double(p)", "R-C11-DISPATCH", "Add: equal/opposite swapped")
+F("B36", "C11", EC, "    if z == 0 or y == 0:\n      return INFINITY_JACOBIAN", "    if z == 0:\n      return INFINITY_JACOBIAN", "R-C11-DISPATCH", "DoubleJacobian: y = 0 not handled")
+F("B37", "C11", EC, "      if p != INFINITY and q != INFINITY:\n        tmp[i] = (p[0] - q[0]) % self.mod", "      if p != INFINITY:\n        tmp[i] = (p[0] - q[0]) % self.mod", "R-C11-DISPATCH", "BatchAddList: inverse requested for infinite q")
+F("B38", "C11", EC, "      if v:\n        res[i] = res[i] * inverse % mod\n        inverse = inverse * v % mod", "      if v is not None:\n        res[i] = res[i] * inverse % mod\n        inverse = inverse * v % mod", "R-C11-DISPATCH", "BatchInverse: passes skip different entries")
+F("B39", "C11", EC, "        mod=2**256 - 2**32 - 977,\n        a=0,\n        b=7,", "        mod=2**256 - 2**32 - 977,\n        a=0,\n        b=5,", "R-C11-CURVES", "secp256k1 b")
+F("B40", "C11", EC, "        name=\"secp224r1\",\n        mod=2**224 - 2**96 + 1,", "        name=\"secp224r1\",\n        mod=2**224 - 2**96 - 1,", "R-C11-CURVES", "secp224r1 modulus")
+F("B41", "C11", EC, "    if u1 == u2:\n      if s1 != s2:\n        return INFINITY_JACOBIAN\n      else:\n        return self.DoubleJacobian(p)", "    if u1 == u2:\n      return self.DoubleJacobian(p)", "R-C11-DISPATCH", "AddJacobian: opposite points doubled")
+T("B42", "C11", EC, "    ysqr = y * y % mod\n    zsqr = z * z % mod\n    s = 4 * x * ysqr % mod", "    ysqr = y * y\n    zsqr = z * z\n    s = 4 * x * ysqr", "DoubleJacobian: reductions removed (still congruent)")
+T("B43", "C11", EC, "    if self.a == -3:\n      m = 3 * (x + zsqr) * (x - zsqr) % mod\n    else:\n      m = (3 * x * x + self.a * zsqr * zsqr) % mod", "    if self.a == -3:\n      m = (3 * x * x - 3 * zsqr * zsqr) % mod\n    else:\n      m = (3 * x * x + self.a * zsqr * zsqr) % mod", "a=-3 shortcut expanded")
+
+# ---------------------------------------------------------------------------------- C09
+UT = L + "util.py"
+F("D07", "C09", EC, "    b = r * si % self.n\n", "    b = s * si % self.n\n", "R-C09-HNP", "b = s * si")
+F("D07b", "C09", EC, "    si = gmpy.invert(s, self.n)\n", "    si = gmpy.invert(s, self.mod)\n", "R-C09-HNP", "inverse modulo the field prime")
+F("D07c", "C09", EC, "    a = z * si % self.n\n    b = r * si % self.n\n    return (a, b)", "    a = z * si % self.n\n    b = r * si % self.n\n    return (b, a)", "R-C09-HNP", "pair swapped")
+F("D08", "C09", EC, "    if shift > 0:\n      h >>= shift\n", "    if shift > 0:\n      h <<= shift\n", "R-C09-TRUNC", "shift left")
+T("D08b", "C09", EC, "    if shift > 0:\n      h >>= shift\n", "    if shift >= 1:\n      h >>= shift\n", "shift >= 1")
+F("D08c", "C09", EC, "    shift = hlen - self.n.bit_length()\n", "    shift = hlen - self.mod.bit_length()\n", "R-C09-TRUNC", "order length taken from the field")
+F("D08d", "C09", EC, "    if shift > 0:\n      h >>= shift\n    return h % self.n", "    if shift > 8:\n      h >>= shift\n    return h % self.n", "R-C09-TRUNC", "no truncation for small excess")
+F("D09", "C09", EC, "  z = curve.TransformOrderLen(h, len(sig.message_hash) * 8)", "  z = curve.TransformOrderLen(h, len(sig.message_hash) * 4)", "R-C09-FEED", "hash length in nibbles")
+F("D09b", "C09", EC, "  r = gmpy.mpz(util.Bytes2Int(sig.r))\n  s = gmpy.mpz(util.Bytes2Int(sig.s))", "  r = gmpy.mpz(util.Bytes2Int(sig.s))\n  s = gmpy.mpz(util.Bytes2Int(sig.r))", "R-C09-FEED", "r and s swapped")
+F("D10", "C09", UT, "  return int.to_bytes(int(int_val), (int_val.bit_length() + 7) // 8, 'big')", "  return int.to_bytes(int(int_val), (int_val.bit_length() + 7) // 8, 'little')", "R-C09-BYTES", "Int2Bytes little-endian")
+F("D10b", "C09", UT, "  return int.from_bytes(bytes_val, 'big')", "  return int.from_bytes(bytes_val[1:], 'big')", "R-C09-BYTES", "Bytes2Int drops the first byte")
+F("D10c", "C09", EC, "  x = gmpy.mpz(util.Bytes2Int(key.x))\n  y = gmpy.mpz(util.Bytes2Int(key.y))\n  return (x, y)", "  x = gmpy.mpz(util.Bytes2Int(key.x))\n  y = gmpy.mpz(util.Bytes2Int(key.y))\n  return (y, x)", "R-C09-BYTES", "PublicPoint swaps coordinates")
+F("D10d", "C09", UT, "    return bytes.fromhex('0' + hexstr_val)", "    return bytes.fromhex(hexstr_val + '0')", "R-C09-BYTES", "odd hex padded on the right")
+T("D10e", "C09", EC, "    si = gmpy.invert(s, self.n)\n    a = z * si % self.n\n    b = r * si % self.n\n    return (a, b)", "    inv_s = gmpy.invert(s, self.n)\n    return (z * inv_s % self.n, r * inv_s % self.n)", "HNP without temps")
